@@ -142,6 +142,14 @@ func (pc *virtualPacketConn) ReadFrom(p []byte) (int, net.Addr, error) {
 		err  error
 	}, 1)
 
+	// A closed connection must not take part in the select below: both cases can be ready,
+	// and the choice between ready cases is random.
+	select {
+	case <-pc.closeCh:
+		return 0, nil, net.ErrClosed
+	default:
+	}
+
 	select {
 	case pc.readCh <- readRequest{
 		buffer: p,
